@@ -482,6 +482,9 @@ class Tensor:
         return self * other
 
     def __truediv__(self, other) -> 'Tensor': # self / other
+        # a scalar divisor is brought to the tensor's dtype first: the reciprocal is taken in that precision,
+        # not in the (possibly narrower) precision of a NumPy scalar
+        other = other if isinstance(other, Tensor) else Tensor(other, device=self.device, dtype=self.__scalar_dtype())
         return self * other**-1
 
     def __rtruediv__(self, other) -> 'Tensor': # other / self
